@@ -397,7 +397,7 @@ def run(ctx):
             got = ' '.join(canon_tokens(ins.split(' '), 'optimized'))
             if got != want:
                 mt, msv = shrink_unpack(t, sv, _unpack_ok)
-                key = classify(mt, msv, 'unpack')
+                key = 'dep-C03:unit-unhashable-unpack' if "unhashable type: 'unit'" in _real_unpack(mt, msv) else classify(mt, msv, 'unpack')
                 ctx.violation(key, f'UNPACK(PACK v) for v = {" ".join(g.sv_tokens(mt, msv))[:100]} : {json.dumps(mt)[:120]} gives {_real_unpack(mt, msv)[:100]} (packed {_real_pack(mt, msv)[:80]})',
                               {'type': mt, 'value_tokens': g.sv_tokens(mt, msv), 'packed': _real_pack(mt, msv), 'unpacked': _real_unpack(mt, msv)})
                 failing = True
